@@ -103,6 +103,10 @@ impl SM {
         t.timestamp() - TIME_BASE
     }
     pub fn val(&mut self, tok: &str) -> String {
+        // "huge<d>": a value of about 1.2 MB (a transaction that outgrows SQLite's page cache)
+        if tok.starts_with("huge") && tok.len() == 5 {
+            return tok.repeat(250_000);
+        }
         let s = match self.valclass.as_str() {
             "unicode" => format!("{tok}\u{2713}\u{fc}\"\\\n\u{1f600}'{tok}"),
             "edge" => match tok {
@@ -117,6 +121,9 @@ impl SM {
         s
     }
     pub fn val_tok(&self, s: &str) -> String {
+        if s.len() == 5 * 250_000 && s.starts_with("huge") {
+            return s[..5].to_string();
+        }
         match self.rev_val.get(s) {
             Some(t) => t.clone(),
             None if self.valclass == "ascii" && s.len() < 40 => s.to_string(),
